@@ -174,6 +174,23 @@ BENIGN = [
     ("benign-save-str-path", ["C03"], "setigen/frame.py", "        self.waterfall.write_to_fil(filename)", "        self.waterfall.write_to_fil(str(filename))"),
 ]
 
+# larger semantics-preserving refactors, kept as patch files under sensitivity/benign_patches: the pull-request-style changes of
+# seeded round l with their slip corrected (the demo of the seeded change exits 0 on each), i.e. what the same PR looks like done right
+BENIGN_PATCHES = [
+    ("timegrid-cache", ["C10", "C15", "C02"]),
+    ("header-cache-stat-keyed", ["C03"]),
+    ("blockcount-loop-tidy", ["C04", "C14"]),
+    ("staging-buffer-per-instance", ["C08", "C02"]),
+    ("antenna-prealloc-result-type", ["C10", "C02"]),
+    ("pickle-without-fs", ["C12", "C03"]),
+    ("input-strided-view", ["C14"]),
+    ("rolling-bg-window", ["C15", "C02", "C12"]),
+    ("ts-ext-cache-identity", ["C16", "C06", "C12"]),
+    ("dedrift-vectorised-rowindex", ["C17"]),
+    ("getitem-from-selection", ["C18", "C16"]),
+    ("blockcount-snap-ulps", ["C20"]),
+]
+
 # fix commit -> property whose check must re-find the defect when the fix is reverted
 REVERTS = [
     ("bc06074", "C08"), ("4af9c5b", "C09"), ("25da695", "C15"), ("1391308", "C04"), ("f03be70", "C04"), ("e68e37a", "C04"),
@@ -230,18 +247,26 @@ def main(argv):
     jobs = []
     if "--benign" in argv:
         do_planted = do_reverts = False
-        for mid, props, rel, old_, new_ in BENIGN:
+        for mid, props, rel, old_, new_ in BENIGN + [("benign-patch-" + n, pr, None, None, None) for n, pr in BENIGN_PATCHES]:
             if only and mid not in only and not (set(props) & only):
                 continue
             d = scratch_copy()
             try:
-                pth = os.path.join(d, rel)
-                src = open(pth).read()
-                if old_ not in src:
-                    print(mid, "PATCH-DOES-NOT-APPLY", flush=True)
-                    results.append({"id": mid, "property": ",".join(props), "status": "PATCH-DOES-NOT-APPLY"})
-                    continue
-                open(pth, "w").write(src.replace(old_, new_, 1))
+                if rel is None:
+                    pf = os.path.join(HERE, "sensitivity", "benign_patches", mid[len("benign-patch-"):] + ".diff")
+                    pr_ = subprocess.run(["patch", "-p1", "-s", "-i", pf], cwd=d, capture_output=True, text=True)
+                    if pr_.returncode != 0:
+                        print(mid, "PATCH-DOES-NOT-APPLY", pr_.stdout[-300:], flush=True)
+                        results.append({"id": mid, "property": ",".join(props), "status": "PATCH-DOES-NOT-APPLY"})
+                        continue
+                else:
+                    pth = os.path.join(d, rel)
+                    src = open(pth).read()
+                    if old_ not in src:
+                        print(mid, "PATCH-DOES-NOT-APPLY", flush=True)
+                        results.append({"id": mid, "property": ",".join(props), "status": "PATCH-DOES-NOT-APPLY"})
+                        continue
+                    open(pth, "w").write(src.replace(old_, new_, 1))
                 outcomes = {}
                 for pr in props:
                     rc, lines, wall, tail = run_check(pr, d, budget)
